@@ -399,6 +399,25 @@ example :
   simp only [List.mem_cons, HOp.req.injEq, List.not_mem_nil, or_false, reduceCtorEq, false_or] at hr
   rcases hr with rfl | rfl | rfl | rfl | rfl <;> rfl
 
+/-- non-vacuity with `reset()`: `Sum`, filled, computed, reset (`upd`: the state changes, the allocation counter
+does not), filled with a bare value, computed (no context), filled, computed: the hypotheses hold, and the
+contexts yielded before and after the reset are different new objects -/
+example :
+    let ops := accOps (ownNs 0) .sum
+    let x : HItem := mkItem (.int 1) (some (upNs, 0))
+    let y : HItem := mkItem (.int 3) none
+    let h : List (HOp HSt Skel Value) :=
+      [.req (.fill x), .req .compute, .upd (fun s => { s with acc := accReset s.acc }), .req (.fill y), .req .compute,
+       .req (.fill x), .req .compute]
+    (∀ g, HOp.upd g ∈ h → ∀ s : HSt, s.ctr ≤ (g s).ctr) ∧
+    (runHist ops (fun s : HSt => s.ctr) (fun _ => .dict [("k", .int 1)]) {} h).map (fun e => cellsOf e.resp.outs)
+      = [[], [(2, 0)], [], [], [], [(2, 2)]] := by
+  refine ⟨?_, by decide⟩
+  intro g hg s
+  simp only [List.mem_cons, HOp.upd.injEq, List.not_mem_nil, or_false, reduceCtorEq, false_or] at hg
+  subst hg
+  exact Nat.le_refl _
+
 theorem outputs_append (l₁ l₂ : List (Ev S C)) : outputs (l₁ ++ l₂) = outputs l₁ ++ outputs l₂ := by
   induction l₁ with
   | nil => rfl
